@@ -401,10 +401,9 @@ def eval_sweep(P):
             if wrote and (state['cap'] is None or max(wrote) >= state['cap']):
                 bad = bad or '%s: the pending list is written at index %d, %s entries were reserved for it' % (label, max(wrote), state['cap'])
                 continue
-            if gone and (state['freed'] != 1 or W.events[-1] != ('free-list',)):
-                bad = bad or '%s: the pending list is %s' % (label, 'never released' if not state['freed'] else 'released before the last pending pointer is finalised')
-                continue
-            if W.atoms[('elem', 'gc', 0, 'freenum')] != 0:
-                bad = bad or '%s: the pending list was released but its length still says %s (a later deletion walks the released list)' % (label, W.atoms[('elem', 'gc', 0, 'freenum')])
+            # (whether the list is released at once or kept for the next sweep is not prescribed; if it is released, that happens after
+            # the last pending pointer was finalised)
+            if state['freed'] and W.events[-1] != ('free-list',):
+                bad = bad or '%s: the pending list is released before the last pending pointer is finalised' % label
     _SWEEP[id(P)] = (bad, unsup, ncase)
     return _SWEEP[id(P)]
